@@ -194,6 +194,8 @@ pub struct World {
     pub model: RefCell<Model>,
     pub ctx: RefCell<Vec<Ctx>>,
     pub in_stabilise: Cell<bool>,
+    /// an update handler has started running in the current stabilise
+    pub handler_phase: Cell<bool>,
     pub crash_counter: Cell<u64>,
     pub crash_at: Option<u64>,
     /// invocation count per callback id
@@ -234,6 +236,7 @@ impl World {
             model: RefCell::new(Model::new(knobs)),
             ctx: RefCell::new(vec![]),
             in_stabilise: Cell::new(false),
+            handler_phase: Cell::new(false),
             crash_counter: Cell::new(0),
             crash_at: knobs.crash_at,
             calls: Default::default(),
